@@ -239,6 +239,13 @@ impl Loader {
     }
 }
 
+#[cfg(feature = "verif")]
+impl Loader {
+    pub(crate) fn verif_parts(&self) -> (&[FileId], &SmallMap<String, usize>, &Option<String>) {
+        (&self.default, &self.pools, &self.builddir)
+    }
+}
+
 /// State loaded by read().
 pub struct State {
     pub graph: graph::Graph,
